@@ -473,7 +473,7 @@ def variable_orders(used, extra=("u0", "u1"), tier="quick"):
         e1 = extra[1]
         if len(base) == 3:
             for pm in perms:
-                for pos in range(4):
+                for pos in (1, 2):
                     orders.append(list(pm[:pos]) + [e0] + list(pm[pos:]))
         orders.append([e0] + base + [e1])
         orders.append(list(reversed(base)) + [e1])
